@@ -48,6 +48,22 @@ def serialize_sc(value):
     return value.raw if isinstance(value, MyScalar) else value
 
 
+class Money:
+    """its own parser: configured as type AND parse"""
+    def __init__(self, raw):
+        CALLS.append(("parse", repr(raw)))
+        self.raw = raw
+
+    def __eq__(self, other):
+        return isinstance(other, Money) and other.raw == self.raw
+
+    def __hash__(self):
+        return hash(self.raw)
+
+    def __repr__(self):
+        return f"Money({self.raw!r})"
+
+
 def parse_sc2(value):
     CALLS.append(("parse2", repr(value)))
     if isinstance(value, MyScalar):
@@ -93,6 +109,9 @@ type Query {{
   r: R
 {q}
   outer(x: Outer): String
+  top: Sc
+  tops: [Sc!]
+  topReq: Sc!
   two(a: Sc, b: [Sc!], p: Plain): String
   two2(a: Sc, b: Sc2, i: IBoth): String
   outer2(x: Outer2, y: Outer3): String
@@ -112,14 +131,14 @@ def get_schema():
 
 
 IMPORT_STYLES = ("relative", "absolute", "deprecated_import_key")
-CONFIGS = ("type_only", "parse", "serialize", "both")
+CONFIGS = ("type_only", "parse", "serialize", "both", "parse_is_type")
 
 
 def scalar_section(cfg, style):
     sec, _ = _scalar_section(cfg, style)
     sc2 = dict(sec["Sc"])
     for k in ("parse", "serialize"):
-        if k in sc2:
+        if k in sc2 and cfg != "parse_is_type":
             sc2[k] = sc2[k] + "2"
     sec["Sc2"] = sc2
     return sec, {}
@@ -130,6 +149,11 @@ def _scalar_section(cfg, style):
         return {"Sc": {"type": "datetime.datetime"}}, {}
     mod = {"relative": ".scalars_mod", "absolute": "abs_scalars_mod", "deprecated_import_key": ".scalars_mod"}[style]
     pre = "" if style == "deprecated_import_key" else mod + "."
+    if cfg == "parse_is_type":
+        sec = {"type": pre + "Money", "parse": pre + "Money"}
+        if style == "deprecated_import_key":
+            sec["import"] = mod
+        return {"Sc": sec}, {}
     sec = {"type": pre + "MyScalar"}
     if cfg in ("parse", "both"):
         sec["parse"] = pre + "parse_sc"
@@ -147,6 +171,9 @@ def result_ops():
     ops.append(("RUnp", "query RUnp { r { node { id ...FA } } }\nfragment FA on A { sc extra }\n", {"pos:fragment_unpacked"}))
     ops.append(("RBoth", "query RBoth { r { r0 s2 s2l nested { sc } } }\n", {"pos:two_scalars_same_type"}))
     ops.append(("RBoth2", "query RBoth2 { r { s2l r5 } }\nquery ROnly2 { r { s2 } }\n", {"pos:two_scalars_same_type"}))
+    ops.append(("Top", "query Top { top }\n", {"pos:top_level_scalar"}))
+    ops.append(("Tops", "query Tops { tops }\nquery TopOther { r { plain } }\n", {"pos:top_level_scalar"}))
+    ops.append(("TopReq", "query TopOther { r { plain } }\nquery TopReq { topReq }\n", {"pos:top_level_scalar"}))
     ops.append(("RAbs", "query RAbs { r { node { id sc ... on A { extra } ... on B { other } } nodes { sc ... on A { id } ... on B { id } } nodeReq { sc ... on A { id } ... on B { id } } } }\n", {"pos:abstract_members"}))
     return ops
 
@@ -238,9 +265,15 @@ def evaluate(case):
             CALLS, My = sm.CALLS, sm.MyScalar
             raw_of = lambda i, sc="Sc": f"raw{i}" if sc == "Sc" else f"two{i}"
             py_of = lambda raw: My(raw)
+            if cfg == "parse_is_type":
+                def py_of(raw, Money=sm.Money):
+                    m = object.__new__(Money)
+                    m.raw = raw
+                    return m
         mname = "".join(("_" + c.lower() if c.isupper() and i else c.lower()) for i, c in enumerate(op[0]))
         from ariadne_codegen.utils import str_to_snake_case
         mname = str_to_snake_case(op[0])
+        shorter = any("ShorterResults" in p for p in (options.get("plugins") or [])) and "pos:top_level_scalar" in op[2]
         if kind == "result":
             state = {}
 
@@ -271,17 +304,18 @@ def evaluate(case):
                     continue
                 if any(f.startswith("serialize") for f, a in calls):
                     P.append(("serialize_called_on_result", f"{calls}", ctx))
-                for scn, fn in (("Sc", "parse"), ("Sc2", "parse2")):
-                    occ = sc_occurrences_in_data(schema, doc, {}, res.data, scn)
+                for scn, fn in ((("Sc", "parse"), ("Sc2", "parse2")) if cfg != "parse_is_type" else (("Sc+Sc2", "parse"),)):
+                    occ = sc_occurrences_in_data(schema, doc, {}, res.data, scn) if scn != "Sc+Sc2" else \
+                        sc_occurrences_in_data(schema, doc, {}, res.data, "Sc") + sc_occurrences_in_data(schema, doc, {}, res.data, "Sc2")
                     parse_calls = Counter(a for f, a in calls if f == fn)
-                    if cfg in ("parse", "both"):
+                    if cfg in ("parse", "both", "parse_is_type"):
                         want = Counter(repr(v) for _, v in occ)
                         if parse_calls != want:
                             P.append(("parse_call_count", f"{fn} calls {dict(parse_calls)} expected {dict(want)}", ctx))
                         if "None" in parse_calls:
                             P.append(("parse_called_with_null", f"{calls}", ctx))
                     for path, raw in occ:
-                        val = get_at(r[1], path)
+                        val = get_at(r[1], path) if not shorter else get_at(r[1], path[1:])
                         if val != py_of(raw):
                             P.append(("parsed_value", f"{path}: {val!r} expected {py_of(raw)!r}", ctx))
                 out["outcomes"].add("result_parsed")
@@ -386,9 +420,11 @@ def build_cases(tier):
         styles = IMPORT_STYLES if cfg != "type_only" else ("relative",)
         for style in styles:
             full = (style == "relative") or tier != "quick"
-            if cfg in ("type_only", "parse", "both"):
+            if cfg in ("type_only", "parse", "both", "parse_is_type"):
                 for op in (result_ops() if full else result_ops()[:3] + result_ops()[-3:]):
                     cases.append(dict(cfg=cfg, style=style, kind="result", op=op))
+                    if "pos:top_level_scalar" in op[2]:
+                        cases.append(dict(cfg=cfg, style=style, kind="result", op=op, options={"plugins": ["ariadne_codegen.contrib.shorter_results.ShorterResultsPlugin"]}))
             if cfg in ("type_only", "serialize", "both"):
                 for op in (arg_ops() if full else arg_ops()[:3] + arg_ops()[-3:]):
                     cases.append(dict(cfg=cfg, style=style, kind="arg", op=op))
